@@ -300,11 +300,12 @@ uint64_t cmb_timeseries_copy(struct cmb_timeseries *tgt,
         tgt->ta = NULL;
     }
 
-    const uint64_t csz = dsp_src->count;
+    /* Same allocated size as the xa array, the copy may have samples added */
+    const uint64_t csz = dsp_src->cursize;
     if (src->ta != NULL) {
         cmb_assert_debug(csz > 0u);
         tgt->ta = cmi_calloc(csz, sizeof *(tgt->ta));
-        cmi_memcpy(tgt->ta, src->ta, csz * sizeof *(tgt->ta));
+        cmi_memcpy(tgt->ta, src->ta, dsp_src->count * sizeof *(tgt->ta));
     }
 
     if (tgt->wa != NULL) {
@@ -315,7 +316,7 @@ uint64_t cmb_timeseries_copy(struct cmb_timeseries *tgt,
     if (src->wa != NULL) {
         cmb_assert_debug(csz > 0u);
         tgt->wa = cmi_calloc(csz, sizeof *(tgt->wa));
-        cmi_memcpy(tgt->wa, src->wa, csz * sizeof *(tgt->wa));
+        cmi_memcpy(tgt->wa, src->wa, dsp_src->count * sizeof *(tgt->wa));
     }
 
     return dsp_tgt->count;
